@@ -842,14 +842,27 @@ def settle(ctx, res, cases, stats):
             continue
         r = a2a.source_request(c.src)
         if r is not None:
-            a2a_idx.append((ci, len(reqs)))
+            typed = None
+            if c.prog is not None:
+                targs = [[n, pysem.ty_json(t)] for n, t in c.prog.args]
+                tret = pysem.ty_json(c.prog.ret)
+                if tret is not None and all(t is not None for _, t in targs):
+                    typed = (targs, tret)
+                    r["targs"], r["ret"] = targs, tret
+            a2a_idx.append((ci, len(reqs), typed is not None))
             reqs.append(r)
+            if typed is not None:
+                # the Lean source-level semantics (QV.A2A.execProg) of the source tree
+                reqs.append(dict(op="c01.semsrc", args=typed[0], ret=typed[1], body=r["body"]))
     replies = ctx.model(reqs) if reqs else []
     model_of = {}
     if replies is not None:
-        for ci, ri in a2a_idx:
-            check_a2a(res, case_json(cases[ci]), replies[ri], cases[ci].a2a_real,
-                      (cases[ci].code.get(cases[ci].main) or {}).get("tree"), stats)
+        for ci, ri, typed in a2a_idx:
+            first_ = cases[ci].code.get(cases[ci].main) or {}
+            check_a2a(res, case_json(cases[ci]), replies[ri], cases[ci].a2a_real, first_.get("tree"), stats,
+                      accepted=bool(first_.get("ok")))
+            if typed:
+                check_semsrc(res, cases[ci], replies[ri + 1], stats)
         for ci, ri in idx:
             c = cases[ci]
             model_of[ci] = (replies[ri], replies[ri + 1] if suspicious(c) else None)
@@ -946,7 +959,36 @@ def a2a_stats(stats):
                                             differ=0, rules={}, outside_reasons={}, exceptions={}))
 
 
-def check_a2a(res, cj, m, real, captured, stats):
+def check_semsrc(res, c, sem, stats):
+    """the Lean source-level semantics with control flow (QV.A2A.execProg after the constant folding of the source;
+    the one ast2ast_if_preserved / C01_if / C01_for speak of) against the python oracle on the same source text:
+    every bit pysem claims must be its bit.  Rows / programs where it gives no meaning are counted, never compared."""
+    st = a2a_stats(stats)
+    for k_ in ("semsrc_programs", "semsrc_defined_programs", "semsrc_rows", "semsrc_claimed_bits"):
+        st.setdefault(k_, 0)
+    if sem is None or "driver_error" in sem:
+        res.disagree(case_json(c), "Lean source-level semantics: driver error", model=sem)
+        return
+    rows = sem.get("rows")
+    st["semsrc_programs"] += 1
+    if rows is None or c.expected is None or c.oracle != "ok" or len(c.expected) != len(rows):
+        return
+    if any(r is not None for r in rows):
+        st["semsrc_defined_programs"] += 1
+    for k, (exp, got) in enumerate(zip(c.expected, rows)):
+        if got is None:
+            continue
+        st["semsrc_rows"] += 1
+        bad = len(got) != len(exp) or [i for i, e_ in enumerate(exp) if e_ is not None and (got[i] == "1") != e_]
+        st["semsrc_claimed_bits"] += sum(1 for e_ in exp if e_ is not None)
+        if bad:
+            res.disagree(case_json(c, row=k, args=row_values(c.prog, k)),
+                         "Lean source-level semantics (execProg) differs from the python oracle on a claimed bit",
+                         model=got, expected="".join("?" if e_ is None else ("1" if e_ else "0") for e_ in exp))
+            return
+
+
+def check_a2a(res, cj, m, real, captured, stats, accepted=None):
     """the Lean model of `ast2ast` (QV.A2A.ast2ast, driver op c01.ast2ast) on the source tree against the real pass on a
     fresh parse of the same text: same exception (class, and the message contains the model's key) or the same
     tree after the canonical serialisation of harness/a2a.py (every node), and the same Front syntax (`toP` of the
@@ -978,6 +1020,20 @@ def check_a2a(res, cj, m, real, captured, stats):
         st["agree_tree"] += 1
     for r in (m.get("rules") or []):
         st["rules"][r] = st["rules"].get(r, 0) + 1
+    cls = m.get("class")
+    if cls is not None:
+        tc = st.setdefault("theorem_classes", dict(typed_programs=0, straightLine=0, guardedLine=0, okProg=0,
+                                                    C01_if_all_hypotheses=0, of_which_with_if=0, of_which_with_for=0,
+                                                    of_which_straight_line_source=0))
+        tc["typed_programs"] += 1
+        tc["straightLine"] += bool(cls["straightLine"])
+        tc["guardedLine"] += bool(cls["guardedLine"])
+        tc["okProg"] += bool(cls["okProg"])
+        if cls["okProg"] and cls["stable"] and cls["guardedLine"] and accepted:
+            tc["C01_if_all_hypotheses"] += 1
+            tc["of_which_with_if"] += bool(cls["hasIf"])
+            tc["of_which_with_for"] += bool(cls["hasFor"])
+            tc["of_which_straight_line_source"] += not (cls["hasIf"] or cls["hasFor"])
 
 
 def run_a2a_forms(ctx, lib, res, stats):
